@@ -23,7 +23,10 @@ def tests(wt):
     rc, out = sh("cd %s && PYTHONPATH=%s timeout 1200 /venv/bin/python -m pytest -q -p no:cacheprovider --timeout=900 --continue-on-collection-errors 2>&1 | tail -15" % (wt, wt))
     m = re.search(r"(\d+) failed, (\d+) passed", out)
     failed = re.findall(r"FAILED (\S+)", out)
-    return (int(m.group(1)), int(m.group(2)), failed) if m else (None, None, out[-300:])
+    if m:
+        return int(m.group(1)), int(m.group(2)), failed
+    m = re.search(r"(\d+) passed", out)      # since fix b277d5c the whole suite passes (93)
+    return (0, int(m.group(1)), failed) if m else (None, None, out[-300:])
 
 
 def main():
@@ -52,7 +55,7 @@ def main():
             rc1, o1 = sh("timeout 600 /venv/bin/python %s" % demo, env=env)
             nf, npass, failed = tests(wt)
             sh("git -C %s checkout -- . && git -C %s clean -fdq" % (wt, wt))
-            ok = rc0 == 0 and rc1 != 0 and nf == 1 and npass == 92 and failed == ["tests/test_losses.py::test_BCELoss"]
+            ok = rc0 == 0 and rc1 != 0 and ((nf, npass) == (0, 93) or ((nf, npass) == (1, 92) and failed == ["tests/test_losses.py::test_BCELoss"]))
             print(pid, tag, "CONFIRMED" if ok else "REJECTED", "demo clean rc=%s patched rc=%s tests=%s/%s %s" % (rc0, rc1, nf, npass, failed))
             if not ok:
                 continue
